@@ -92,7 +92,7 @@ def hexs(rng, n, letters=0.6):
 def gen_addr(rng, bad):
     v = rng.choice([0, 1, 0xffffffff, 0x100000000, rng.getrandbits(32), rng.getrandbits(64), rng.getrandbits(12)])
     k = rng.randrange(6)
-    if bad and rng.random() < 0.3:
+    if bad and rng.random() < 0.5:
         return rng.choice(["", "zz", "0x", "12g4", "0x0x12", "x10", "é"])
     if k == 0:
         return "0x%08x" % v
@@ -127,11 +127,12 @@ def gen_file(rng, mid, kind):
         for _ in range(rng.choice([0, 1, 3, 8])):
             bits = {str(b): gen_word(rng) for b in rng.sample(range(0, 256), rng.choice([0, 1, 3, 10])) if not drop(0.2)}
             f["signatures"][hexs(rng, 4, 0.8)] = [gen_word(rng), bits]
-    if not drop(0.2):
+    bad = kind == "bad"
+    if bad or not drop(0.2):
         f["registers"] = {}
-        for _ in range(rng.choice([0, 1, 3, 8])):
-            insts = {str(i): gen_addr(rng, kind == "bad") for i in rng.sample(range(0, 256), rng.choice([0, 1, 2, 6]))
-                     if not drop(0.2)}
+        for _ in range(4 if bad else rng.choice([0, 1, 3, 8])):
+            insts = {str(i): gen_addr(rng, bad) for i in rng.sample(range(0, 256), rng.choice([6, 12] if bad else [0, 1, 2, 6]))
+                     if bad or not drop(0.2)}
             f["registers"][hexs(rng, 6, 0.8)] = [gen_word(rng), insts]
     return f
 
@@ -642,10 +643,6 @@ def scratch_cases(run, model, cd, n):
                 run_case(run, model, cd, ud_case(sub, b""), "ud:other-subtype")
 
 
-def spec_ud_args(g):
-    return g
-
-
 def one_env(run, model, kind, scale, mutants=True):
     rng = run.rng
     files = gen_env(rng, kind)
@@ -678,9 +675,9 @@ def run(run, model, proof):
                 "and with the model always.  non-trivial = distinct (environment, input) that the implementation decodes "
                 "without raising")
     kinds = ["absent", "complete", "partial", "partial", "complete", "bad", "upperid", "oddid", "partial", "complete"]
-    scale = 1
+    scale = 2
+    kinds = kinds * (30 if thorough else 3)
     if thorough:
-        kinds = kinds * 6
         scale = 4
     for k in kinds:
         one_env(run, model, k, scale)
